@@ -10,7 +10,8 @@
 EXTENDS Naturals, Integers, Sequences, FiniteSets, FiniteSetsExt, TLC
 
 CONSTANTS D, W, Items, Weights, MaxLen, Bound,
-          QueryOtherHash   \* named deviation: query uses a different location than update for row 1
+          QueryOtherHash,  \* named deviation: query uses a different location than update for row 1
+          BatchCellOnce    \* named deviation: a vectorised batch_add (M[i, locs] += w) touches every cell at most once per call
 
 VARIABLES hashf, Mx, truth, total, steps, cnt, ctruth, chist
 vars == <<hashf, Mx, truth, total, steps, cnt, ctruth, chist>>
@@ -27,6 +28,15 @@ Update(x, w) == /\ steps < MaxLen
                 /\ truth' = [truth EXCEPT ![x] = @ + w]
                 /\ total' = total + w /\ steps' = steps + 1
                 /\ UNCHANGED <<hashf, cnt, ctruth, chist>>
+\* batch_add(lst, delta): the whole list in one call - every element adds delta at its own
+\* location, so two elements sharing a cell (equal items or colliding ones) both count
+Mult(lst, i, j) == Cardinality({k \in DOMAIN lst : hashf[lst[k]][i] = j})
+BatchUpdate(lst, w) == /\ steps < MaxLen
+                       /\ Mx' = [i \in Rows |-> [j \in Locs |-> Mx[i][j] + w * (IF BatchCellOnce /\ Mult(lst, i, j) > 1 THEN 1 ELSE Mult(lst, i, j))]]
+                       /\ truth' = [x \in Items |-> truth[x] + w * Cardinality({k \in DOMAIN lst : lst[k] = x})]
+                       /\ total' = total + w * Len(lst) /\ steps' = steps + 1
+                       /\ UNCHANGED <<hashf, cnt, ctruth, chist>>
+BatchLists == UNION {[1..n -> Items] : n \in 0..3}
 QLoc(x, i) == IF QueryOtherHash /\ i = 1 THEN (hashf[x][i] + 1) % W ELSE hashf[x][i]
 Query(x) == Min({Mx[i][QLoc(x, i)] : i \in Rows})
 RowSum(i) == FoldSet(LAMBDA j, s : Mx[i][j] + s, 0, Locs)
@@ -42,6 +52,8 @@ CAdd(x) == /\ Len(chist) < MaxLen
 
 Next == (\E x \in Items : \E w \in Weights : Update(x, w)) \/ (\E x \in Items : CAdd(x))
 NextCMS == \E x \in Items : \E w \in Weights : Update(x, w)
+NextCMSBatch == \/ \E x \in Items : \E w \in Weights : Update(x, w)
+                \/ \E lst \in BatchLists : \E w \in Weights : BatchUpdate(lst, w)
 NextCounter == \E x \in Items : CAdd(x)
 Spec == Init /\ [][Next]_vars
 
